@@ -1,3 +1,4 @@
+import BlochVerif.Eval.OpsLog
 import BlochVerif.Sim.Qasm
 import BlochVerif.Sim.Replay
 /-!
@@ -165,5 +166,13 @@ theorem replay_reaches_the_same_state (h : List (HOp ℝ)) (hd : ∀ op ∈ h, D
     runOps complexOps (State.init complexOps true) h =
       runOps complexOps (allocN (nAllocs h) (State.init complexOps true)) (opsOnly h) :=
   interleaved_allocation_equals_upfront h _ (WF_init' true) hd hp
+
+/-- **Evaluator level.**  Whatever a program does — any function, any body, any fuel — the simulator's operation log,
+from which the OpenQASM text is printed, is only extended at its end, and the logging switch is never touched: no emitted
+line is ever retracted, reordered or rewritten (induction principle of the evaluator model, `Eval/OpsLog.lean`). -/
+theorem a_program_only_appends_to_the_emitted_operations (fuel : Nat) (fn : Parse.FuncDecl) (args : List Eval.Value)
+    (st st' : Eval.EState) (v : Eval.Value) (h : (Eval.call fuel fn args).run st = .ok (v, st')) :
+    (∃ suf, st'.sim.ops = st.sim.ops ++ suf) ∧ st'.sim.logOps = st.sim.logOps :=
+  Eval.call_only_extends_the_log fuel fn args st st' v h
 
 end BlochVerif.Props.C05
